@@ -155,8 +155,13 @@ Score == IsEv("score") /\ UNCHANGED <<pending, root, sroot, go, waiting>> /\ l' 
 \* the driver waited (watchdog) for the bestmove of a go that is bounded by depth or time
 Waited ==
   /\ IsEv("waited")
-  /\ Report(F(Rec[l].ok, "C14", "no bestmove arrived for a go bounded by depth or time (watchdog expired)",
-              [go |-> go.params, waited_ms |-> Rec[l].t - go.t]))
+  \* judged only where the bound is short: a small time budget, or depth <= 3 (a deep depth-limited search may
+  \* legitimately take longer than any watchdog)
+  /\ Report(IF (Timed(go.params) /\ go.infotime >= 0 /\ go.infotime <= 3000 /\ ~Has(go.params, "infinite"))
+               \/ (Has(go.params, "depth") /\ go.params.depth <= 3)
+            THEN F(Rec[l].ok, "C14", "no bestmove arrived for a go bounded by a short time or depth (watchdog expired)",
+                   [go |-> go.params, waited_ms |-> Rec[l].t - go.t])
+            ELSE {})
   /\ UNCHANGED <<pending, root, sroot, go, waiting>> /\ l' = l + 1
 
 Exit ==
